@@ -80,6 +80,39 @@ Proof.
 Qed.
 Print Assumptions C06_reachable_inv.
 
+(* ---- a failing persistence on the create path (saveStateUnsafe error) ---- *)
+(* nothing is left behind: the index is exactly as before the call (the set is absent from lookups and visits as
+   it was), and the call fails -- unless no entry had to be made, in which case the call is the plain lookup *)
+Theorem C06_failed_create_rolled_back : forall quote unquote st text,
+  let '(st', r) := goc_fault quote unquote st text true in
+  st' = st /\ (r = GErr \/ get_or_create quote unquote st text true = (st, r)).
+Proof. intros quote unquote st text. exact (fault_rollback quote unquote st text). Qed.
+Print Assumptions C06_failed_create_rolled_back.
+(* a later successful create of that set (any spelling) is answered with the set, stored under its line and visited *)
+Theorem C06_create_after_failed_create : forall quote unquote st t1 t2 m,
+  Inv quote unquote st -> to_map unquote t2 = Ok m -> m <> [] -> rt_ok quote unquote m ->
+  let '(st1, _) := goc_fault quote unquote st t1 true in
+  let '(st2, r) := get_or_create quote unquote st1 t2 true in
+  exists d, r = GSrc (d_src d) m /\ d_tags d = m /\ tbl_find (t_map st2) (line quote m) = Some d /\
+            visit (Some positive) (t_map st2) = Ok (map snd (t_map st2)) /\ In d (map snd (t_map st2)).
+Proof.
+  intros quote unquote st t1 t2 m I Hm Hne RT.
+  pose proof (fault_rollback quote unquote st t1) as R. destruct (goc_fault quote unquote st t1 true) as [st1 r1].
+  destruct R as (-> & _).
+  pose proof (goc_step quote unquote st t2 I (fun m' H => eq_ind m (rt_ok quote unquote) RT m' (f_equal (fun o => match o with Ok x => x | _ => m end) (eq_trans (eq_sym Hm) H)))) as S.
+  destruct (get_or_create quote unquote st t2 true) as [st2 r]. destruct S as (_ & _ & A).
+  destruct (A m Hm Hne) as (d & Er & Ef & Et). exists d. repeat split; try assumption.
+  - clear. induction (t_map st2) as [|[k d'] tl IH]; [reflexivity|]. cbn [visit call positive map snd]. rewrite IH. reflexivity.
+  - apply tbl_find_in in Ef. apply (in_map snd) in Ef. exact Ef.
+Qed.
+Print Assumptions C06_create_after_failed_create.
+(* the invariant (and with it identity and the race theorem) survives histories with failing saves *)
+Theorem C06_reachable_inv_faults : forall quote unquote ops,
+  (forall t f m, In (t, f) ops -> to_map unquote t = Ok m -> rt_ok quote unquote m) ->
+  Inv quote unquote (fst (run_f quote unquote t_empty ops)).
+Proof. intros quote unquote ops RT. exact (run_f_inv quote unquote ops t_empty (inv_empty quote unquote) RT). Qed.
+Print Assumptions C06_reachable_inv_faults.
+
 (* ---- selection ---- *)
 (* FROM {tags}: exactly the partitions whose set contains every given pair *)
 Theorem C06_from_tags : forall up lo pm q l, NoDup (map fst q) ->
